@@ -7,6 +7,7 @@ DRIVER = 'harness/delayeddestructor_drv.cpp'
 EXTRACT = 'Extract/DelayedDestructorExtract.v'
 ML = 'delayeddestructor_model'
 SANITIZE = True
+ENUM = True
 
 ADD, DROP, DESTROY, DESTROY_DELAY, SIZE, DESTROY_CONTAINER, READD = 1, 2, 3, 4, 5, 6, 7
 MODES = [(8, 0), (1, 1), (1, 2), (2, 3), (1, 4)]
